@@ -5,7 +5,7 @@ use crate::report::Report;
 use crate::Cfg;
 
 pub fn run(cfg: &Cfg, rep: &mut Report) {
-    rep.rule = "S: documents built from the standard constructs (cmrt::std_doc: paragraphs, ATX/setext headings, thematic breaks, fenced/indented code, block quotes, bullet/ordered lists tight/loose with task items, HTML blocks, tables, one footnote; inlines: text over an alphabet with every Markdown-significant character, emphasis/strong, code spans, links with titles, images, angle autolinks, hard breaks, entities, backslash escapes, strikethrough) and canonical documents of the C03 model (driver `canon`), x GFM extensions (+footnotes) in every combination x list_style x prefer_fenced, with width = 0, ol_width = 0, smart off: cm(parse(cm(parse x))) == cm(parse x) byte for byte. Each failure is shrunk (lines, characters, options) and attributed by counterfactual: it belongs to a listed mechanism iff removing that mechanism's trigger from the parsed tree makes the clause pass (shrunk input first, else the generated document); unexplained failures keep a mechanical signature (first structural difference) and are violations. K: renderCm vs format_commonmark on documents and direct trees under ALL options including width 1..120, ol_width, smart; outc/table_escape/shortest_unused_sequence/longest_char_sequence through hooks (exhaustive finite domains)".into();
+    rep.rule = "S: documents built from the standard constructs (cmrt::std_doc: paragraphs, ATX/setext headings, thematic breaks, fenced/indented code, block quotes, bullet/ordered lists tight/loose with task items, HTML blocks, tables, one footnote; inlines: text over an alphabet with every Markdown-significant character, emphasis/strong, code spans, links with titles, images, angle autolinks, hard breaks, entities, backslash escapes, strikethrough) and canonical documents of the C03 model (driver `canon`), x GFM extensions (+footnotes) in every combination x list_style x prefer_fenced, with width = 0, ol_width = 0 or 2..6, smart off: cm(parse(cm(parse x))) == cm(parse x) byte for byte. Each failure is shrunk (lines, characters, options) and attributed by counterfactual: it belongs to a listed mechanism iff removing that mechanism's trigger from the parsed tree makes the clause pass (shrunk input first, else the generated document); unexplained failures keep a mechanical signature (first structural difference) and are violations. K: renderCm vs format_commonmark on documents and direct trees under ALL options including width 1..120, ol_width, smart; outc/table_escape/shortest_unused_sequence/longest_char_sequence through hooks (exhaustive finite domains)".into();
     if std::env::var("CMRT_NOK").is_err() {
         cmrt::run_k_outc(rep);
         cmrt::run_k_helpers(rep, cfg.seed ^ 0xC17 ^ 0x48);
